@@ -136,6 +136,46 @@ Theorem C15_model_holds : forall frepr i,
 Proof. exact model_holds_C15_current. Qed.
 Print Assumptions C15_model_holds.
 
+(* permission bits (observed next to the trees as SyncObs.perm_row; the model of the bits, perm_predicted, is derived
+   from the executed tree model: a copy carries the source's bits, nothing else changes a bit).  In a dry run the model
+   predicts "unchanged" for every row ... *)
+Theorem C15_dry_run_keeps_permission_bits : forall i rows m r,
+  o_dry_run (i_opts i) = true -> ob_dst m = i_dst i ->
+  (pr_dst r = true -> forall c mt, file_at (pr_path r) (p_ws (i_dst i)) = Some (c, mt) -> mt <> NOW) ->
+  (pr_dst r = true -> file_at (pr_path r) (p_ws (i_dst i)) = None -> pr_before r = PERM_DEFAULT) ->
+  perm_predicted i rows m r = pr_before r.
+Proof. exact perm_predicted_dry. Qed.
+Print Assumptions C15_dry_run_keeps_permission_bits.
+
+(* ... hence (licence for the correspondence) agreement of the implementation's bits with the model's on a
+   project-level dry run gives the bits clause of the dry-run oracle on the implementation's observation.
+   perm_rows_wf: the recorded mtimes precede the call (none is NOW) and a path without a file has the default bits.
+   Job-level entry points are covered by the correspondence only (the tree part: C15_dry_run_no_change_job_level). *)
+Theorem C15_model_holds_permission_bits : forall c,
+  i_entry (c_in (cs_case c)) = E_project -> o_dry_run (i_opts (c_in (cs_case c))) = true ->
+  i_unmodelled (c_in (cs_case c)) = false -> i_parallel (c_in (cs_case c)) = false ->
+  docs_wf (i_src (c_in (cs_case c))) -> perm_rows_wf c ->
+  perm_mismatch c = false -> perm_dry_ok c = true.
+Proof. exact perm_model_holds_dry. Qed.
+Print Assumptions C15_model_holds_permission_bits.
+
+(* non-vacuity of the hypotheses, and the clause is not trivially true: on the project-level dry run wit_C15_w1 a
+   source file with bits 0755 that keeps them agrees with the model and satisfies the clause; the same row with other
+   bits afterwards disagrees with the model and violates the clause *)
+Example C15_permission_bits_example :
+  let mk := fun after => {| cs_ftab := []; cs_case := model_case nofl cfg_current wit_C15_w1;
+                            cs_perm := [{| pr_dst := false; pr_path := [[120]%N]; pr_before := 493%N; pr_after := after |}] |} in
+  (i_entry wit_C15_w1 = E_project /\ o_dry_run (i_opts wit_C15_w1) = true /\ i_unmodelled wit_C15_w1 = false
+   /\ i_parallel wit_C15_w1 = false /\ perm_rows_wf (mk 493%N))
+  /\ perm_mismatch (mk 493%N) = false /\ perm_dry_ok (mk 493%N) = true
+  /\ perm_mismatch (mk 384%N) = true /\ perm_dry_ok (mk 384%N) = false.
+Proof.
+  cbv zeta. split.
+  - do 4 (split; [vm_compute; reflexivity|]).
+    intros r [<-|[]] Hd; discriminate Hd.
+  - repeat split; vm_compute; reflexivity.
+Qed.
+
 (* non-vacuity: the six witnesses are well-formed inputs on which the repaired model satisfies the whole oracle *)
 Example C15_example :
   forallb (fun i => holds_C15 nofl (model_case nofl cfg_current i) && wf_project (i_src i) && wf_project (i_dst i))
